@@ -13,6 +13,43 @@ from vf.xh import I, B, Reject, pick
 _KEY = jax.random.key(0)
 
 
+class RngStub:
+  """key derivation is irrelevant for C02 (decided under C09) and real jax.random
+  cannot run under the symbolic tracer: fold_in returns its key unchanged"""
+
+  def __enter__(self):
+    self.saved = (S.random, S.jnp)
+
+    class R:
+      fold_in = staticmethod(lambda key, data: key)
+
+      def __getattr__(self, name):
+        return getattr(jax.random, name)
+
+    class J:
+      uint32 = staticmethod(lambda x: x)
+
+      def __getattr__(self, name):
+        import jax.numpy as jnp
+        return getattr(jnp, name)
+    S.random, S.jnp = R(), J()
+    return self
+
+  def __exit__(self, *a):
+    S.random, S.jnp = self.saved
+    return False
+
+
+def with_rng_stub(fn):
+  import functools
+
+  @functools.wraps(fn)
+  def g(*a, **k):
+    with RngStub():
+      return fn(*a, **k)
+  return g
+
+
 class Leaf(nn.Module):
   mult: int = 3
 
@@ -127,6 +164,7 @@ def _out(resolved, own, own_first, reuse, var_name, x, tree):
   return y
 
 
+@with_rng_stub
 def tree_mirrors_modules(nk, n0, n1, own, own_first, reuse, vn, x, w_new):
   """init's tree sits at <submodule name>/<variable>, auto names are deterministic,
   apply(init vars) reproduces init's output without creating / dropping anything,
@@ -139,7 +177,7 @@ def tree_mirrors_modules(nk, n0, n1, own, own_first, reuse, vn, x, w_new):
     if n != 0:
       raise Reject()
   own_nm = pick(OWN_POOL, own)
-  var_nm = pick([None, 'v', 'Leaf_0', 'w'], vn)
+  var_nm = pick([None, 'Leaf_0', 'v', 'w'], vn)
   mod = Parent(names=tuple(names), own=own_nm, own_first=bool(own_first),
                reuse=bool(reuse), var_name=var_nm)
   exp, err = _expected(names, own_nm, bool(own_first), bool(reuse), var_nm)
@@ -180,6 +218,7 @@ def tree_mirrors_modules(nk, n0, n1, own, own_first, reuse, vn, x, w_new):
   return True
 
 
+@with_rng_stub
 def damaged_tree(kind, which, x):
   """a missing / wrongly shaped / misplaced parameter raises instead of being
   re-initialised"""
@@ -211,6 +250,7 @@ def damaged_tree(kind, which, x):
   return False
 
 
+@with_rng_stub
 def setup_style(x, w):
   """setup-style modules: attribute names (and list indices) are the tree keys;
   bind()/unbind round trip"""
@@ -248,6 +288,8 @@ ASSUMPTIONS = (
     'lazy_init / eval_shape / jit(init) agreement needs JAX abstract evaluation of '
     'real arrays: NOT covered (no solver variable can enter it)',
     'leaf values are Python ints; nesting depth 2',
+    'flax.core.scope.random.fold_in is stubbed to return its key (key values are '
+    'decided under C09)',
     'jax.core.get_opaque_trace_state compat shim installed by the harness process',
 )
 
@@ -258,11 +300,13 @@ def obligations(tier):
                 nn.Module.variable, nn.Module.bind, nn.Module.unbind,
                 nn.Module.__post_init__, S.Scope.reserve, S.Scope.default_name,
                 S.Scope.push, S.Scope.param)
+  quick = tier == 'quick'
   npool = I(0, len(NAME_POOL) - 1)
   return [
       Ob('tree_mirrors_modules', tree_mirrors_modules,
-         dict(nk=I(0, 2), n0=npool, n1=npool, own=I(0, len(OWN_POOL) - 1),
-              own_first=B(), reuse=B(), vn=I(0, 3), x=I(-3, 3), w_new=I(-3, 3)),
+         dict(nk=I(0, 2), n0=npool, n1=npool,
+              own=I(0, 3 if quick else len(OWN_POOL) - 1), own_first=B(), reuse=B(),
+              vn=I(0, 1 if quick else 3), x=I(-3, 3), w_new=I(-3, 3)),
          split=('nk', 'n0', 'n1', 'own'), timeout=900, funcs=F,
          per_path_timeout=60.0,
          bounds='<=2 children, names from %r, own param from %r, stats variable '
